@@ -10,6 +10,7 @@ transport, real asyncio loop with a case-controlled clock) whose routing table a
 Well-formedness is judged by the reference decoder plus a message schema written from datagram.py's documented
 field layout ({0: <int type>, 1: <bytes rpc id, 20>, 2: <bytes node id, 48>, 3.., 4..}), never by lbry code.
 """
+import json
 import hashlib
 import sys
 
@@ -1210,6 +1211,55 @@ def selftest():
     assert tree_encode(to_tree({0: 0, 1: R, 2: N, 3: b"ping", 4: [{b"protocolVersion": 1}]})) == ok
 
 
+# ------------------------------------------------------------------------------------------------------
+# Part C: coverage-guided byte fuzzing (atheris / libFuzzer) of datagram_received with the same oracle (_feed)
+# ------------------------------------------------------------------------------------------------------
+
+def _fuzz_seed_inputs():
+    """valid datagrams of every kind, prefixed with the two selector bytes the target consumes"""
+    specs = []
+    R, N, Kk = b"r" * 20, H("fz-node"), H("blob", 0)
+    from lbry.dht.serialization.datagram import RequestDatagram, ResponseDatagram, ErrorDatagram
+    msgs = [RequestDatagram.make_ping(N), RequestDatagram.make_find_node(N, Kk), RequestDatagram.make_find_value(N, Kk),
+            RequestDatagram.make_find_value(N, Kk, page=3), RequestDatagram.make_store(N, Kk, b"t" * 48, 3333),
+            ResponseDatagram(1, R, N, b"pong"), ResponseDatagram(1, R, N, [[N, b"1.2.3.4", 4444]]),
+            ResponseDatagram(1, R, N, {b"token": b"t" * 48, b"contacts": [[N, b"1.2.3.4", 4444]],
+                                       Kk: [compact("1.2.3.4", 3333, N)], b"p": 1}),
+            ErrorDatagram(2, R, N, b"ValueError", b"oops")]
+    for i, m in enumerate(msgs):
+        for a in (0, 1):
+            specs.append(bytes([a, i % 4]) + m.bencode())
+    return specs
+
+
+def fuzz_campaigns(tier, shard, nshards):
+    n, runs = (2, 6000) if tier == "quick" else (16, 400000)
+    for i in range(n):
+        if i % nshards == shard:
+            yield {"campaign": i, "runs": runs, "empty_corpus": i % 4 == 3, "max_len": 256 if i % 2 else 2048}
+
+
+def run_fuzz_campaign(case):
+    import os
+    from vlib.fuzzcamp import run_campaign
+    out = Out()
+    seed = int(os.environ.get("VERIF_SEED", "1") or 1) * 100 + case["campaign"]
+    found, stats = run_campaign("fuzz/atheris_c17.py", seed, case["runs"], case["max_len"],
+                                [] if case["empty_corpus"] else _fuzz_seed_inputs())
+    out.nontrivial = stats.get("number_of_executed_units", 0) >= case["runs"] // 2
+    out.sample = dict(case, stats={k: v for k, v in stats.items() if k != "tail"})
+    out.label("fuzz-campaign", "fuzz-empty-corpus" if case["empty_corpus"] else "fuzz-seeded-corpus")
+    if stats.get("exit") not in (0,):
+        raise RuntimeError("atheris campaign did not finish cleanly: %r" % (stats,))
+    if stats.get("libfuzzer_artifacts"):
+        out.violate("fuzz:target-crashed", "libFuzzer wrote %d crash artefacts: %s" % (stats["libfuzzer_artifacts"], stats.get("tail")))
+    for f in found:
+        # replayable as a garbage-part case
+        rc = {"setup": f["setup"], "items": [{"k": "raw", "hex": f["raw"], "sender": f["sender"]}]}
+        out.violate(f["tag"], "found by atheris campaign %d; replay as part 'garbage' case %s" % (case["campaign"], json.dumps(rc)[:1500]))
+    return out
+
+
 PARTS = [
     Part("messages", lambda tier: message_specs(), run_message, 2500, 40000, quick_shards=2, thorough_shards=16,
          essential=("ping", "store", "find_node", "find_value", "resp", "resp_contacts", "resp_value", "error-ascii",
@@ -1220,4 +1270,6 @@ PARTS = [
          essential=("trunc", "trunc-inside-nested", "bencode-but-not-message", "rep", "prng-all", "edit1", "edit3",
                     "size>16KiB", "request-invalid:unknown-method", "request-valid:store", "verdict-response",
                     "verdict-error", "verdict-malformed:not-bencode", "verdict-dontcare:non-canonical-order")),
+    Part("atheris", None, run_fuzz_campaign, 0, 0, quick_shards=2, thorough_shards=16, enumerate_cases=fuzz_campaigns,
+         essential=("fuzz-campaign",)),
 ]
